@@ -37,48 +37,72 @@ def panic_call(c):
     return d.startswith("core::panicking::") or d.startswith("std::rt::begin_panic") or "panic_fmt" in d or d.endswith("::panic")
 
 
+def check_shapes(b):
+    """occurrences, in any body, of  if let Some(c) = g.collector() { assert!(Collector::ptr_eq(c, &self.collector)) }
+    -> (ok, why, [collector() calls that feed an accepted comparison])"""
+    cols = b.calls_to("seize::Guard::collector", "Guard::collector")
+    peq = b.calls_to("seize::Collector::ptr_eq", "Collector::ptr_eq")
+    if not cols or not peq or b.nargs < 2:
+        return None
+    cached = getattr(b, "_check_shapes", None)
+    if cached is not None:
+        return cached
+    fl = flow(b)
+    ok = False
+    why = "no ptr_eq of guard.collector() with self.collector"
+    good_cols = []
+    for pe in peq:
+        a0, a1 = pe.arg_local(0), pe.arg_local(1)
+        if a0 is None or a1 is None:
+            continue
+        sides = []
+        feeding = []
+        for a in (a0, a1):
+            roots, locs = fl.roots(a)
+            fc = [b.call_at(r[1]) for r in roots if r[0] == "call" and b.call_at(r[1]) is not None
+                  and (b.call_at(r[1]) in cols or b.call_at(r[1]).is_("Guard::collector"))]
+            feeding += fc
+            fields = fl.ref_fields(a)
+            from_self_field = any(base_is_arg(fl, base, 1) and fs and fs[-1][1] == "collector" for base, fs in fields)
+            sides.append((bool(fc), from_self_field))
+        paired = (sides[0][0] and sides[1][1]) or (sides[1][0] and sides[0][1])
+        if not paired:
+            continue
+        # result tested; false edge must reach a panic, true edge must not be forced to
+        tested = False
+        for blk in range(len(b.blocks)):
+            c = cond_of(b, blk)
+            if c and c["kind"] == "call" and c["call"].b == pe.b:
+                tested = True
+                false_reach = reach(b, [Point(c["false"], 0)])
+                # a panic that only exists under debug_assert*! is compiled out of release builds: it rejects nothing there
+                pcs = [x for x in b.calls if panic_call(x) and x.point in false_reach]
+                panics_false = any(not any(m.rsplit("::", 1)[-1].startswith("debug_assert") for m in x.macro) for x in pcs)
+                if pcs and not panics_false:
+                    why = "the inequality edge panics only under debug_assert!: release builds accept the foreign guard"
+                    continue
+                rets_false = any(b.term(p[0])["k"] == "return" and p[1] == b.nstmts(p[0]) for p in false_reach)
+                if panics_false and not rets_false:
+                    ok = True
+                    good_cols += feeding
+                else:
+                    why = "inequality edge of ptr_eq does not end in a panic (returns normally: %s)" % rets_false
+        if not tested:
+            why = "ptr_eq result is not tested"
+    b._check_shapes = (ok, why, good_cols)
+    return b._check_shapes
+
+
 def find_guard_checks(facts):
     """G3: bodies of the shape  if let Some(c) = g.collector() { assert!(Collector::ptr_eq(c, &self.collector)) }"""
     found = []
     for b in facts.bodies:
-        cols = b.calls_to("seize::Guard::collector", "Guard::collector")
-        peq = b.calls_to("seize::Collector::ptr_eq", "Collector::ptr_eq")
-        if not cols or not peq or b.nargs < 2:
+        sh = check_shapes(b)
+        if sh is None:
             continue
+        ok, why, good_cols = sh
+        cols = b.calls_to("seize::Guard::collector", "Guard::collector")
         fl = flow(b)
-        ok = False
-        why = "no ptr_eq of guard.collector() with self.collector"
-        for pe in peq:
-            a0, a1 = pe.arg_local(0), pe.arg_local(1)
-            if a0 is None or a1 is None:
-                continue
-            sides = []
-            for a in (a0, a1):
-                roots, locs = fl.roots(a)
-                from_collector_call = any(b.call_at(r[1]) in cols or (b.call_at(r[1]) and b.call_at(r[1]).is_("Guard::collector"))
-                                          for r in roots if r[0] == "call")
-                fields = fl.ref_fields(a)
-                from_self_field = any(base_is_arg(fl, base, 1) and fs and fs[-1][1] == "collector" for base, fs in fields)
-                sides.append((from_collector_call, from_self_field))
-            paired = (sides[0][0] and sides[1][1]) or (sides[1][0] and sides[0][1])
-            if not paired:
-                continue
-            # result tested; false edge must reach a panic, true edge must not be forced to
-            dl = pe.dst_local()
-            tested = False
-            for blk in range(len(b.blocks)):
-                c = cond_of(b, blk)
-                if c and c["kind"] == "call" and c["call"].b == pe.b:
-                    tested = True
-                    false_reach = reach(b, [Point(c["false"], 0)])
-                    panics_false = any(panic_call(x) and x.point in false_reach for x in b.calls)
-                    rets_false = any(b.term(p[0])["k"] == "return" and p[1] == b.nstmts(p[0]) for p in false_reach)
-                    if panics_false and not rets_false:
-                        ok = True
-                    else:
-                        why = "inequality edge of ptr_eq does not end in a panic (returns normally: %s)" % rets_false
-            if not tested:
-                why = "ptr_eq result is not tested"
         # which params: guard = the arg whose collector() is taken; map = arg 1
         gk = None
         for c in cols:
@@ -145,6 +169,7 @@ class GuardAnalysis:
         fl = flow(b)
         uses = []
         checks = []
+        inline = check_shapes(b)
         for c in b.calls:
             if b.is_cleanup(c.b):
                 continue
@@ -158,6 +183,10 @@ class GuardAnalysis:
                     ci = self.check_ids[c.resolved]
                     if ci["guard_param"] == k + 1:
                         checks.append(("direct", c, k + 1))
+                    continue
+                if k == 0 and inline is not None and inline[0] and c.point in {x.point for x in inline[2]}:
+                    # the comparison written out in place: guard.collector() feeding an accepted ptr_eq-or-panic against self.collector
+                    checks.append(("direct", c, 1))
                     continue
                 if is_view(c) and k == 0:
                     continue
